@@ -22,6 +22,10 @@ def parse_bad(out, tag):
     txt = " ".join(out[i:j if j > 0 else len(out)].split())
     n = int(re.match(r'"%s", (\d+)' % tag, txt).group(1))
     bad = re.findall(r"<< ?(\d+), (\d+), \"(\w+)\", \{([^}]*)\} ?>>", txt)
+    # safety net: a non-empty set that the pattern cannot read must never pass as "no violation"
+    rest = txt[txt.index(",", txt.index(",") + 1) + 1:].strip()
+    if not rest.startswith("{}") and len(bad) == 0:
+        raise Inconclusive("cannot parse the violation set printed by TLC: %s" % txt[:400])
     return n, [(int(a), int(b), c, d) for a, b, c, d in bad]
 
 
